@@ -50,6 +50,9 @@ def check(F, R):
     s_split(F, R)
     sign_rhs(F, R)
     t_remove(F, R)
+    import c13rt
+    from props import get_grammar
+    c13rt.check(F, R, get_grammar())
 
 
 def bound_rows(F, R, f):
